@@ -333,6 +333,8 @@ class FuncView:
                 if r is None:
                     return n
                 v, d = r
+                if d.kind in ("loop", "with", "handler"):
+                    return n
                 if isinstance(v, ast.Call) and isinstance(v.func, ast.Name) and v.func.id == "__iter_elem__":
                     return n
                 # every free name of v must have the same reaching defs at d and at use
@@ -407,6 +409,7 @@ class StmtIndex:
         self.parent: dict[int, tuple] = {}  # id(stmt) -> (parent stmt, field, polarity)
         self.stmt_of: dict[int, ast.AST] = {}
         self.all: list = []
+        self.root_body = body
         self._walk(body, None, "body")
 
     def _walk(self, body, parent, fld):
@@ -450,6 +453,36 @@ class StmtIndex:
                 out.append((parent.test, fld == "body"))
         return out
 
+    def effective_guards(self, node):
+        """explicit guards plus the implicit ones established by earlier siblings (at any
+        enclosing level) of the form ``if C: <always exits>`` (→ not C) or
+        ``if C: ... else: <always exits>`` (→ C)"""
+        from .normalize import always_exits
+
+        out = list(self.guards(node))
+        s = self.statement(node)
+        while s is not None:
+            p = self.parent.get(id(s))
+            if p is None:
+                break
+            parent, fld = p
+            if parent is None:
+                block = self.root_body
+            elif isinstance(parent, ast.ExceptHandler):
+                block = parent.body
+            else:
+                block = getattr(parent, fld, []) if fld != "handlers" else []
+            for prev in block:
+                if prev is s:
+                    break
+                if isinstance(prev, ast.If):
+                    if always_exits(prev.body) and not always_exits(prev.orelse):
+                        out.append((prev.test, False))
+                    elif prev.orelse and always_exits(prev.orelse) and not always_exits(prev.body):
+                        out.append((prev.test, True))
+            s = parent if not isinstance(parent, ast.ExceptHandler) else self.parent.get(id(parent), (None,))[0]
+        return out
+
     def enclosing(self, node, kinds):
         for parent, fld in self.ancestors(node):
             if isinstance(parent, kinds):
@@ -469,4 +502,193 @@ def compare_parts(test):
     """(left, op, right) for a simple binary Compare, else None"""
     if isinstance(test, ast.Compare) and len(test.ops) == 1:
         return test.left, test.ops[0], test.comparators[0]
+    return None
+
+
+def flat_tests(test, polarity=True):
+    """[(atomic test, polarity)] implied by ``test`` taken with ``polarity`` (conjunctions for
+    True, disjunctions for False; other compound tests are returned as they are)"""
+    if isinstance(test, ast.UnaryOp) and isinstance(test.op, ast.Not):
+        return flat_tests(test.operand, not polarity)
+    if isinstance(test, ast.BoolOp):
+        if (isinstance(test.op, ast.And) and polarity) or (isinstance(test.op, ast.Or) and not polarity):
+            out = []
+            for v in test.values:
+                out.extend(flat_tests(v, polarity))
+            return out
+    return [(test, polarity)]
+
+
+def branch_table(stmts):
+    """Flatten a dispatch written as an if/elif/else chain, as consecutive early-exit ifs, or
+    any mixture: returns ([(test, body)], default_body).  ``stmts`` is a statement list whose
+    first ``if`` starts the dispatch (statements before it are skipped).  For an elif chain the
+    default is the final else (statements after the chain run for every branch and are not part
+    of the dispatch); for consecutive early-exit ifs the default is what follows them."""
+    from .normalize import always_exits
+
+    table = []
+    i = 0
+    while i < len(stmts) and not isinstance(stmts[i], ast.If):
+        i += 1
+    if i >= len(stmts):
+        return table, []
+    s, rest = stmts[i], list(stmts[i + 1:])
+    while True:
+        table.append((s.test, s.body))
+        if s.orelse:
+            if len(s.orelse) == 1 and isinstance(s.orelse[0], ast.If):
+                s, rest = s.orelse[0], []
+                continue
+            if always_exits(s.orelse) or not rest:
+                return table, list(s.orelse)
+            return table, list(s.orelse)
+        if always_exits(s.body) and rest:
+            if isinstance(rest[0], ast.If):
+                s, rest = rest[0], rest[1:]
+                continue
+            return table, rest
+        return table, []
+
+
+def const_strings(node):
+    return [n.value for n in ast.walk(node) if isinstance(n, ast.Constant) and isinstance(n.value, str)]
+
+
+# ----------------------------------------------------------------------------------------------
+# path-sensitive symbolic evaluation
+class _Subst(ast.NodeTransformer):
+    def __init__(self, env, decisions):
+        self.env, self.decisions = env, decisions
+
+    def visit_Lambda(self, n):
+        return n
+
+    def visit_Name(self, n):
+        if isinstance(n.ctx, ast.Load) and n.id in self.env and self.env[n.id] is not None:
+            return copy.deepcopy(self.env[n.id])
+        return n
+
+    def visit_IfExp(self, n):
+        t = self.visit(copy.deepcopy(n.test))
+        txt = U(t)
+        for k, pol in (("%s" % txt, True), ("not %s" % txt, False)):
+            if k in self.decisions:
+                taken = self.decisions[k] if pol else not self.decisions[k]
+                return self.visit(n.body if taken else n.orelse)
+        return ast.copy_location(ast.IfExp(test=t, body=self.visit(n.body), orelse=self.visit(n.orelse)), n)
+
+
+def symbolic_paths(fv: "FuncView", at, exprs, stop=(), limit=6000, opaque_calls=()):
+    """Enumerate the acyclic CFG paths from the function entry to ``at`` (statement,
+    expression or CFG node).  For every path return (decisions, values) where
+    ``decisions`` maps the text of each branch test taken on the path to its outcome and
+    ``values`` are the expressions ``exprs`` with local names replaced by the value they
+    have on that path (plain assignments and augmented assignments; loop variables,
+    parameters and names in ``stop`` stay symbolic)."""
+    target = fv.node_of(at)
+    if target is None:
+        return []
+    try:
+        paths = fv.cfg.paths(fv.cfg.entry, {target}, limit=limit)
+    except RuntimeError:
+        return []
+    out = []
+    for p in paths:
+        if p[-1][0] is not target:
+            continue
+        env: dict = {}
+        decisions: dict = {}
+        for k, (node, lab) in enumerate(p[:-1]):
+            nxt = p[k + 1][1]
+            s = node.stmt
+            if node.kind == "test" and s is not None and nxt in ("T", "F"):
+                t = _Subst(env, decisions).visit(copy.deepcopy(s))
+                decisions[U(t)] = nxt == "T"
+                if U(s) != U(t):
+                    decisions[U(s)] = nxt == "T"
+            if s is None:
+                continue
+            if node.kind == "loop":
+                for nm in CFG.defs_of(node):
+                    env[nm] = None
+                continue
+            if isinstance(s, ast.Assign) and len(s.targets) == 1:
+                t = s.targets[0]
+                if isinstance(t, ast.Name):
+                    env[t.id] = None if t.id in stop else _Subst(env, decisions).visit(copy.deepcopy(s.value))
+                elif isinstance(t, (ast.Tuple, ast.List)):
+                    for nm in CFG.defs_of(node):
+                        v = FuncView._component(t, s.value, nm)
+                        env[nm] = None if (v is None or nm in stop) else _Subst(env, decisions).visit(copy.deepcopy(v))
+            elif isinstance(s, ast.AnnAssign) and isinstance(s.target, ast.Name) and s.value is not None:
+                env[s.target.id] = None if s.target.id in stop else _Subst(env, decisions).visit(copy.deepcopy(s.value))
+            elif isinstance(s, ast.AugAssign) and isinstance(s.target, ast.Name):
+                prev = env.get(s.target.id)
+                base = copy.deepcopy(prev) if prev is not None else ast.Name(id=s.target.id, ctx=ast.Load())
+                env[s.target.id] = None if s.target.id in stop else ast.BinOp(left=base, op=s.op, right=_Subst(env, decisions).visit(copy.deepcopy(s.value)))
+            else:
+                for nm in CFG.defs_of(node):
+                    env[nm] = None
+        vals = [_Subst(env, decisions).visit(copy.deepcopy(e)) for e in exprs]
+        out.append((decisions, vals))
+    return out
+
+
+def ifexp_cases(expr, conds=()):
+    """[(conditions, value)] obtained by splitting conditional expressions at the top of
+    ``expr``; conditions are (test text, outcome) pairs"""
+    if isinstance(expr, ast.IfExp):
+        t = U(expr.test)
+        return ifexp_cases(expr.body, conds + ((t, True),)) + ifexp_cases(expr.orelse, conds + ((t, False),))
+    return [(conds, expr)]
+
+
+def value_cases(fv, at, expr, stop=()):
+    """[(conditions: dict test text -> bool, value text)] over all paths to ``at`` and all
+    conditional-expression alternatives"""
+    out = []
+    for dec, (v,) in symbolic_paths(fv, at, [expr], stop=stop):
+        for conds, val in ifexp_cases(v):
+            d = dict(dec)
+            d.update({t: o for t, o in conds})
+            out.append((d, val))
+    return out
+
+
+def truth_of(decisions: dict, test_text: str):
+    """outcome of ``test_text`` under ``decisions`` (True/False/None), looking through
+    conjunctions/disjunctions/negations recorded in the decisions"""
+    if test_text in decisions:
+        return decisions[test_text]
+    neg = _negated_text(test_text)
+    if neg is not None and neg in decisions:
+        return not decisions[neg]
+    for k, v in decisions.items():
+        try:
+            t = ast.parse(k, mode="eval").body
+        except SyntaxError:
+            continue
+        for sub, pol in flat_tests(t, v):
+            if U(sub) == test_text:
+                return pol
+            if neg is not None and U(sub) == neg:
+                return not pol
+    return None
+
+
+def _negated_text(test_text):
+    """text of the exact negation of a simple comparison (== / != / is / is not / in / not in)"""
+    from .normalize import NEG_EXACT
+
+    try:
+        t = ast.parse(test_text, mode="eval").body
+    except SyntaxError:
+        return None
+    if isinstance(t, ast.Compare) and len(t.ops) == 1 and type(t.ops[0]) in NEG_EXACT:
+        return U(ast.Compare(left=t.left, ops=[NEG_EXACT[type(t.ops[0])]()], comparators=t.comparators))
+    if isinstance(t, ast.UnaryOp) and isinstance(t.op, ast.Not):
+        return U(t.operand)
+    if isinstance(t, (ast.Name, ast.Attribute, ast.Call, ast.Subscript)):
+        return "not " + U(t)
     return None
